@@ -596,7 +596,7 @@ class RecipeBuilder:
         if c < 0.35 and same:
             return ("r", rng.choice(same))
         if c < 0.5:
-            return rng.choice([("int", small_int(rng)), ("float", rng.choice([0.5, 2.0, -1.5, 4.0])),
+            return rng.choice([("int", small_int(rng)), ("float", rng.choice([0.5, 2.0, -0.5, 4.0])),
                                ("npf", rng.choice([2.0, 0.5])), ("npi", 2), ("a0", 2.0)])
         if c < 0.8:
             if rng.random() < 0.5:
@@ -1043,7 +1043,7 @@ def oracle_check(steps, regs, rng, rep):
             if kk:
                 f["kind"] = kk
             fails.append(f)
-            nregs[i] = NPERR  # do not propagate
+            nregs[i] = NONUM  # do not propagate
             continue
         if rv is NONUM:
             continue
@@ -1061,7 +1061,7 @@ def oracle_check(steps, regs, rng, rep):
             if kk:
                 f["kind"] = kk
             fails.append(f)
-            nregs[i] = NPERR
+            nregs[i] = NONUM
     rep.histogram["oracle_registers"] = rep.histogram.get("oracle_registers", 0) + len(steps)
     return fails
 
